@@ -259,24 +259,7 @@ func runO(c CaseO, report func(*core.Violation)) {
 			left = append(left, d)
 		}
 	}
-	defer func() {
-		for d := range dirs {
-			if compileDirRe.MatchString(d) {
-				os.RemoveAll(d)
-				continue
-			}
-			// a directory of another shape: remove only what these builds put there
-			if filepath.Clean(d) == filepath.Clean(os.TempDir()) || !strings.HasPrefix(filepath.Clean(d), filepath.Clean(os.TempDir())+"/") {
-				continue
-			}
-			for _, o := range outs {
-				if filepath.Dir(o)+"/" == d {
-					os.Remove(o)
-				}
-			}
-			os.Remove(d)
-		}
-	}()
+	defer cleanupBuildDirs(dirs, outs)
 
 	for i, r := range results {
 		bo := c.Builds[i]
@@ -356,4 +339,26 @@ func TestC13o(t *testing.T) {
 			"overlap is enforced by the compiler stub's rendezvous; if a build ends before its compiler runs the others are released without it",
 		},
 	})
+}
+
+// cleanupBuildDirs removes what builds of a case left in the temp area: a /tmp/<id>/
+// directory of HEAD's shape entirely; of a directory of any other shape only the given
+// output files and the directory itself if that leaves it empty.
+func cleanupBuildDirs(dirs map[string]bool, outs []string) {
+	tmp := filepath.Clean(os.TempDir())
+	for d := range dirs {
+		if compileDirRe.MatchString(d) {
+			os.RemoveAll(d)
+			continue
+		}
+		if cd := filepath.Clean(d); cd == tmp || !strings.HasPrefix(cd, tmp+"/") {
+			continue
+		}
+		for _, o := range outs {
+			if filepath.Dir(o)+"/" == d {
+				os.Remove(o)
+			}
+		}
+		os.Remove(d)
+	}
 }
